@@ -139,10 +139,20 @@ def gen(rng, tier):
         for m in sorted(set(m for m, _ in root["imports"])):
             root["values"].append(("seen_" + m, ("sym", [("name", "imports"), ("name", m)])))
             seen.append(("seen_" + m, m))
+        # a mid-level importer reads ITS imports too: the root sees them through imports.<mid>.seen_<m>
+        for mid in sorted(set(m for m, _ in root["imports"])):
+            for m2 in sorted(set(x for x, _ in envs[mid]["imports"])):
+                key = "seen_" + m2
+                if all(k != key for k, _ in envs[mid]["values"]):
+                    envs[mid]["values"].append((key, ("sym", [("name", "imports"), ("name", m2)])))
+                    seen.append(("seen_" + mid + "/" + key, m2))
         envs["root"] = root
         c = G.case_from_graph(envs, "root")
         c["provs"] = provs
         c["seen"] = seen
+        # the same statement while CHECKING (both sides in the same mode), with and without showSecrets
+        c["check"] = r.chance(1, 3)
+        c["show"] = r.chance(1, 2)
         cases.append(c)
     return cases
 
